@@ -85,6 +85,9 @@ pub fn check_order(spec: &AppSpec, k: usize, route: &RouteInfo, plan: &[(String,
     if plan.iter().any(|(_, a)| *a == 2) {
         labels.push("plan:early-or-skip".into());
     }
+    if st.iter().map(|s| s.pres.len()).sum::<usize>() >= 11 || st.iter().map(|s| s.posts.len()).sum::<usize>() >= 11 {
+        labels.push("shape:>=11-middlewares-of-one-kind".into());
+    }
     labels.push(format!("chain:pre{}-post{}-wrap{}", st.iter().map(|s| s.pres.len()).sum::<usize>().min(3), st.iter().map(|s| s.posts.len()).sum::<usize>().min(3), n_wrap.min(3)));
     Ok(labels)
 }
